@@ -43,7 +43,7 @@
 
    This file contains only statements closed by [exact]. *)
 From Coq Require Import QArith Qcanon List Reals.
-From AV Require Import Model.QuadAlg Proofs.QuadProofs Proofs.QuadReal.
+From AV Require Import Model.QuadAlg Proofs.QuadProofs Proofs.QuadUnique Proofs.QuadReal.
 Import ListNotations.
 
 Section C08_rational.
@@ -61,6 +61,26 @@ Section C08_rational.
     (n <= NMAX)%nat -> left_inverse n Vinv (Vmat xi) -> (length p <= n)%nat ->
     calc_igral a b (coeffs n Vinv (fun j => peval p (node_ab a b xi j))) = pint p a b.
   Proof. exact igral_exact_poly. Qed.
+
+  (* the same for ANY n <= 33 pairwise distinct nodes and the exact inverse of
+     their Legendre matrix, given as a right inverse (V Vinv = I) *)
+  Theorem C08_igral_exact_poly_distinct_nodes :
+    forall n (xi : vec) (Vinv : mat) (a b : Qc) (p : poly),
+    (n <= NMAX)%nat -> distinct n xi -> right_inverse n Vinv (Vmat xi) -> (length p <= n)%nat ->
+    calc_igral a b (coeffs n Vinv (fun j => peval p (node_ab a b xi j))) = pint p a b.
+  Proof. exact igral_exact_poly_distinct. Qed.
+
+  (* uniqueness of interpolation: the node values determine the coefficients *)
+  Theorem C08_interpolation_unique : forall n (xi : vec) (c c' : vec),
+    (n <= NMAX)%nat -> distinct n xi ->
+    (forall j, (j < n)%nat -> mv n (Vmat xi) c j = mv n (Vmat xi) c' j) ->
+    forall k, (k < n)%nat -> c k = c' k.
+  Proof. exact interpolation_unique. Qed.
+
+  Theorem C08_right_inverse_is_left : forall n (xi : vec) (Vinv : mat),
+    (n <= NMAX)%nat -> distinct n xi ->
+    right_inverse n Vinv (Vmat xi) -> left_inverse n Vinv (Vmat xi).
+  Proof. exact right_inverse_is_left. Qed.
 
   (* [pint] is the integral: its antiderivative differentiates back to p, and
      it obeys the substitution rule x = m + h t *)
@@ -152,11 +172,12 @@ Section C08_rational.
      with the exact inverses of their Legendre matrices, and a worked instance:
      int_0^3 (x^4 - x) dx = 441/10 from 5 function values *)
   Example C08_hypotheses_satisfiable :
+    distinct 5 ex_nodes5 /\
     left_inverse 5 ex_Vinv5 (Vmat ex_nodes5) /\ left_inverse 9 ex_Vinv9 (Vmat ex_nodes9) /\
     calc_igral 0 (qc 3 1)
       (coeffs 5 ex_Vinv5 (fun j => peval [0; - (1); 0; 0; 1] (node_ab 0 (qc 3 1) ex_nodes5 j)))
     = qc 441 10.
-  Proof. exact (conj ex_left_inverse5 (conj ex_left_inverse9 ex_igral)). Qed.
+  Proof. exact (conj ex_distinct5 (conj ex_left_inverse5 (conj ex_left_inverse9 ex_igral))). Qed.
 End C08_rational.
 
 Section C08_real.
@@ -188,6 +209,7 @@ Section C08_real.
 End C08_real.
 
 Print Assumptions C08_igral_exact_poly.
+Print Assumptions C08_igral_exact_poly_distinct_nodes.
 Print Assumptions C08_poly_estimate_exact_and_done.
 Print Assumptions C08_split_coeffs_exact_poly.
 Print Assumptions C08_err_real_sq.
